@@ -292,6 +292,30 @@ theorem parse_tzstr_entry_sound_gen (s : Bytes) (z : Bool) (v : Off) (h : Gen.pa
       v = offValue z o x := by
   rw [IsoGen.parseTzstrEntry_eq] at h; exact parseTzstr_sound s z v h
 
+/-- the translated `_takes_ascii` rejects non-ASCII TEXT (str or text stream) with ValueError before the wrapped
+    method runs, and adds no exception kind of its own -/
+theorem non_ascii_rejected_gen {α} (f : Bytes → R α) (t : List Nat) (b : Nat) (hb : b ∈ t) (h128 : b ≥ 128) :
+    Gen.takesAscii f (.str t) = .error .ValueError ∧ Gen.takesAscii f (.streamStr t) = .error .ValueError := by
+  have hany : t.any (fun c => decide (c ≥ 128)) = true := by
+    simp only [List.any_eq_true, decide_eq_true_eq]; exact ⟨b, hb, h128⟩
+  have e1 := IsoGen.takesAscii_eq f (.str t)
+  have e2 := IsoGen.takesAscii_eq f (.streamStr t)
+  simp only [IsoGen.toVal] at e1 e2
+  rw [e1, e2]; simp [takesAscii, hany]
+
+theorem takes_ascii_errors_ValueError_gen {α} (f : Bytes → R α) (hf : ∀ s, OnlyVE (f s)) (i : PyInput) (e : PyErr)
+    (h : Gen.takesAscii f (IsoGen.toVal i) = .error e) : e = .ValueError := by
+  rw [IsoGen.takesAscii_eq] at h
+  cases i <;> simp only [takesAscii] at h
+  · split at h
+    · cases h; rfl
+    · exact hf _ e h
+  · exact hf _ e h
+  · split at h
+    · cases h; rfl
+    · exact hf _ e h
+  · exact hf _ e h
+
 /-! non-vacuity -/
 example : isoparse none [50,48,49,52,45,48,49,45,48,49,84,50,53] = .error .ValueError := by decide +kernel
 example : parseTzstr [43,48,49,58,51,48] true = .ok (.fixed 5400) := by decide +kernel
